@@ -46,6 +46,7 @@ REROOT = [
     ["collect", False],
     ["transfer"],
     ["transfer", "rot"],  # the materialised table itself has a rename in its history
+    ["transfer", "hidden"],  # ... or hidden columns of its own
 ]
 
 
